@@ -32,6 +32,11 @@ for nm, desc, tiers, cost in (
                    # it 30 times with two parser bodies each and never leaves symbolic execution
                    unwindset=[("Iterator>::next", int(nm.split("_g")[1][0]) + 3)]))
 
+ABS = [inst("dlt_iter_abs", "c01_abs_" + n, T, d + "; 9-byte stream with model message sizes 4 (storage) / 2 (serial), symbolic message positions (any number of messages, garbage runs of any length anywhere), index/bytes_processed/bytes_skipped symbolic",
+            "L3' iterator over whole streams against parser contract models: every message found in order, consecutive numbering, skipped == garbage, processed <= input", covers=3, timeout=3000, mem_gb=30, cost=900)
+       for n, d in (("storage_undetected", "storage framing, nothing detected yet"), ("storage_detected", "storage framing, storage detected"),
+                    ("serial_undetected", "serial framing, nothing detected yet"), ("serial_detected", "serial framing, serial detected"))]
+
 PROP = {
     "manifest": dict(
         text="Induction steps of the framing statement, each decided by the solver on the real parsers and the real DltMessageIterator::next: L1 accept (2 framings x 16 header-flag shapes x payload 0..5 B x tail 0..8 B incl. "
@@ -41,16 +46,17 @@ PROP = {
         note=TB + "payload bytes beyond 5 are one Vec::from copy (outside); reading through LowMarkBufReader is C04; logging off (log = None).",
         technique="bounded model checking of the real code (Kani/CBMC): shape-enumerated accept/reject lemmas + inductive iterator step"),
     "jobs": {"quick": 7, "thorough": 5},
-    "inject": [("src/dlt/mod.rs", "dlt_frame.rs"), ("src/utils/dltmessageiterator.rs", "dlt_iter.rs")],
+    "inject": [("src/dlt/mod.rs", "dlt_frame.rs"), ("src/utils/dltmessageiterator.rs", "dlt_iter.rs"), ("src/utils/dltmessageiterator.rs", "dlt_iter_abs.rs")],
     "functions": ["dlt::parse_dlt_with_storage_header", "dlt::parse_dlt_with_serial_header", "DltMessage::from_headers", "DltStorageHeader::{from_buf,reception_time_us}",
                   "DltStandardHeader::{from_buf,std_ext_header_size,ecu,timestamp_dms}", "DltExtendedHeader::from_buf", "is_storage_header_pattern", "is_serial_header_pattern",
                   "utils::DltMessageIterator::next over &[u8]"],
     "bounds": "payload <= 5 B, tail <= 8 B, 16 header shapes x 2 framings; reject/any-buffer lemmas: buffers <= 40 B; iterator: one message per step from an arbitrary state, garbage <= 3 B, tail <= 3 B",
-    "stubs": [FMT],
+    "stubs": [FMT, "L3' instances only (c01_abs_*): dlt::parse_dlt_with_storage_header / parse_dlt_with_serial_header -> contract models (Ok iff a message of the framing starts at offset 0 and fits, "
+              "NotEnoughData below the minimal size, else InvalidData) - this is what L1/L2 establish about the real parsers on marker-clean input"],
     "outside": ["payload content beyond 5 bytes (one Vec::from copy)", "reading through LowMarkBufReader (C04)", "logging (log = None)",
                 "composition of the step lemmas over a whole stream (induction on paper)"],
     "assumptions": ["neither frame marker occurs anywhere except at message starts (the property's precondition)"],
-    "instances": ACC + IT + [
+    "instances": ACC + IT + ABS + [
         inst(F, "c01_reject_storage_40", Q, "any buffer <= 40 B not starting with the storage marker", "L2 reject: InvalidData (>= 20 B) / NotEnoughData, never Ok", covers=2, timeout=2400, cost=60),
         inst(F, "c01_reject_serial_40", Q, "any buffer <= 40 B not starting with the serial marker", "L2 reject: InvalidData (>= 8 B) / NotEnoughData, never Ok", covers=2, timeout=2400, cost=60),
         inst(F, "c03_u1_storage_any_24", Q, "any buffer <= 24 B (marker or not), any len field / htyp", "L4 length arithmetic: no overflow, consumed <= len", covers=2, timeout=2400, cost=40),
